@@ -1,0 +1,10 @@
+//go:build verif
+
+package search
+
+// Verification hooks (build tag "verif" only; add-only; nothing here is compiled into a normal build).
+
+// VerifSetCandSourceHook installs (or, with nil, removes) the function that Handler.Query calls
+// with the name of the candidate source it picked. It only records which planner path a query
+// took (property C08); it cannot influence the choice.
+func VerifSetCandSourceHook(f func(name string)) { candSourceHook = f }
